@@ -877,3 +877,123 @@ package mcp
 //@   ensures @defaulted-value-is-what-is-returned calls(defaults) == 1 && result.1 == nil ==> calls(encode) == 1 && callResult(encode, 1, 1) == nil && result.0 == callResult(encode, 1, 0)
 //@   ensures @untouched-value-passes-through calls(defaults) == 0 && result.1 == nil ==> result.0 == data
 //@   assert at call Validate: @defaults-come-first calls(validate) == 0
+
+// ---------------------------------------------------------------------------------------------
+// C10 / C08: the streamable server connection (routing of outgoing messages, stream state)
+// ---------------------------------------------------------------------------------------------
+
+// streamableServerConn.mu guards the routing tables of one session.
+//@ monitor cmu lock streamableServerConn.mu as c [C10, C08]
+//@   protects fields(streamableServerConn.streams), fields(streamableServerConn.requestStreams), fields(streamableServerConn.isDone), maps("map[string]*stream"), maps("map[jsonrpc.ID]string")
+//@   unpublished (*StreamableServerTransport).Connect
+//@   invariant @tables-exist c.streams != nil && c.requestStreams != nil
+
+// stream.mu guards the delivery state of one logical stream.
+//@ monitor stmu lock stream.mu as s [C10, C08]
+//@   protects fields(stream.w), fields(stream.done), fields(stream.lastIdx), fields(stream.requests), fields(stream.pendingJSONMessages), fields(stream.protocolVersion), maps("map[jsonrpc.ID]struct{}")
+//@   unpublished (*streamableServerConn).servePOST
+//@   assume s.lastIdx < 4611686018427387904   // fewer than 2^62 events on one stream
+//@   invariant @open-channel-has-a-writer s.done != nil ==> s.w != nil
+
+// doneLocked / deliverLocked run inside the stream's critical section (the caller holds s.mu).
+//@ func (*stream).doneLocked [C08, C10]
+//@   holds stmu s
+//@   requires s != nil
+//@   ensures @done-iff-all-requests-answered result <==> (len(s.requests) == 0 && s.id != "")
+
+// deliverLocked: the answered request is struck off first, whatever happens next; a stream without an attached
+// exchange delivers nothing and does not advance its event index; in SSE mode exactly one event is written to the
+// attached exchange, carrying the given data and event id, and the index advances by one; a stream whose requests
+// are all answered releases its exchange (closes done) exactly once.
+//@ func (*stream).deliverLocked [C08, C10]
+//@   holds stmu s
+//@   track writeEvent as emit
+//@   requires s != nil && (s.done != nil ==> s.w != nil)
+//@   requires s.lastIdx < 9223372036854775807   // fewer than 2^63 events on one stream
+//@   modifies *
+//@   ensures @answered-request-is-struck-off responseTo.value != nil ==> !inDom(s.requests, responseTo)
+//@   ensures @done-iff-all-requests-answered result.0 <==> (len(s.requests) == 0 && old(s.id) != "")
+//@   ensures @detached-stream-delivers-nothing old(s.done) == nil ==> calls(emit) == 0
+//@   ensures @detached-stream-stays-detached old(s.done) == nil ==> result.1 != nil && s.lastIdx == old(s.lastIdx) && s.done == nil
+//@   ensures @sse-event-carries-data-and-id old(s.done) != nil && overrideStatus == 0 && old(s.pendingJSONMessages) == nil ==> calls(emit) == 1 && s.lastIdx == old(s.lastIdx) + 1 && callArg(emit, 1, 0) == old(s.w) && callArg(emit, 1, 1).ID == eventID && callArg(emit, 1, 1).Data == data
+//@   ensures @finished-stream-releases-its-exchange result.0 && old(s.done) != nil ==> s.done == nil && closed(old(s.done))
+//@   ensures @unfinished-stream-stays-attached !result.0 ==> s.done == old(s.done)
+//@   ensures @writer-untouched s.w == old(s.w)
+
+// close / release: the two ways an exchange lets go of a stream.
+//@ func (*stream).close [C08, C10]
+//@   requires s != nil
+//@   modifies *
+//@   ensures @closed-once at(locked, s.done) != nil ==> at(unlocked, s.done) == nil && closed(at(locked, s.done))
+//@ func (*stream).release [C08, C10]
+//@   requires s != nil
+//@   ensures @stream-is-free-for-resumption at(unlocked, s.w) == nil && at(unlocked, s.done) == nil
+//@ func (*stream).deliverLocked$1 [C08, C10]
+//@   holds stmu s
+//@   requires s != nil && s.done != nil
+//@   modifies s.done, chanState
+//@   ensures @exchange-released s.done == nil && closed(old(s.done))
+
+// acquireStream (GET, with or without Last-Event-ID): replay and re-attachment happen in one critical section of the
+// stream, so no new message can be stored or delivered in between; a stream already attached to another exchange is
+// refused with 409 and nothing is replayed; replayed events are numbered consecutively from the index after the
+// resume point; a stream that is handed back is attached to this exchange with a fresh done channel and its event
+// index set to the last replayed one.
+//@ func (*streamableServerConn).acquireStream [C08, C10]
+//@   track After as replaySource
+//@   track writeEvent as emit
+//@   track formatEventID as eventID
+//@   track http.Error as reject
+//@   requires c != nil && w != nil && lastIdx >= -1 && lastIdx < 4611686018427387904
+//@   modifies *
+//@   ensures @attached-stream-is-refused at(locked_stmu_1, local(s).w) != nil && at(unlocked_cmu_1, inDom(c.streams, streamID)) && at(locked_cmu_1, inDom(c.streams, streamID)) ==> result.0 == nil && result.1 == nil && calls(emit) == 0 && calls(replaySource) == 0 && calls(reject) == 1 && callArg(reject, 1, 2) == 409
+//@   ensures @handed-back-stream-is-attached-to-this-exchange result.0 != nil ==> result.1 != nil && at(unlocked_stmu_1, result.0.w) == w && at(unlocked_stmu_1, result.0.done) == result.1 && result.0 == at(unlocked_cmu_1, c.streams[streamID])
+//@   ensures @index-continues-after-the-replay result.0 != nil ==> at(unlocked_stmu_1, result.0.lastIdx) == lastIdx + calls(emit)
+//@   assert at call After: @replay-inside-the-stream-lock held(stmu) && $3 == local(s).id && $4 == lastIdx
+//@   assert at call writeEvent: @events-written-inside-the-stream-lock held(stmu) && $0 == w
+//@   assert at call formatEventID: @replayed-ids-are-consecutive $1 == lastIdx + calls(emit) + 1
+//@   loop 1: invariant @one-event-per-replayed-message local(lastIdx) == lastIdx + $idx && calls(emit) == $idx && calls(eventID) <= $idx
+
+// Write: where an outgoing message goes. All decisions are made on this connection's own tables inside its lock, so
+// a message can only reach a stream registered with this session.
+//  - a response goes to the stream its request is routed to, and nowhere else: without a route it is rejected;
+//    the route is removed in the same critical section;
+//  - a request or notification sent while handling a request (id carried in the context) goes to that request's
+//    stream (SSE mode); in JSON-response mode, or without a related request, it goes to a listen stream if there is
+//    one, else to the standalone stream;
+//  - nothing is delivered once the session is closed;
+//  - (C08) with an event store and a pre-2026-07-28 peer the bytes are appended to the store first and then handed
+//    to deliverLocked - the same bytes, both inside the stream's critical section - with the event id made from the
+//    stream id and the stream's next index; a stream whose last response went out is removed from the table.
+//@ func (*streamableServerConn).Write [C10, C08]
+//@   track deliverLocked as deliver
+//@   track Append as store
+//@   track formatEventID as eventID
+//@   track EncodeMessage as encode
+//@   track ctx.Value as related
+//@   ghost respID := old(msg.(*jsonrpc2.Response).ID)
+//@   ghost target := at(locked_stmu_1, callArg(deliver, 1, 0))
+//@   requires c != nil
+//@   requires typeIs(msg, *jsonrpc2.Response) ==> msg.(*jsonrpc2.Response) != nil && msg.(*jsonrpc2.Response).ID.value != nil   // a response always answers a call
+//@   modifies *
+//@   ensures @response-only-to-its-request-stream typeIs(msg, *jsonrpc2.Response) && calls(deliver) == 1 ==> at(locked_cmu_1, inDom(c.requestStreams, respID)) && callArg(deliver, 1, 0) == at(locked_cmu_1, c.streams[c.requestStreams[respID]]) && callArg(deliver, 1, 3) == respID
+//@   ensures @unrouted-response-is-rejected typeIs(msg, *jsonrpc2.Response) && calls(encode) == 1 && callResult(encode, 1, 1) == nil && !at(locked_cmu_1, inDom(c.requestStreams, respID)) ==> calls(deliver) == 0 && result != nil
+//@   ensures @answered-request-loses-its-route typeIs(msg, *jsonrpc2.Response) && calls(deliver) == 1 ==> !at(unlocked_cmu_1, inDom(c.requestStreams, respID))
+//@   ensures @request-scoped-traffic-uses-the-request-stream !typeIs(msg, *jsonrpc2.Response) && !old(c.jsonResponse) && calls(related) == 1 && callResult(related, 1, 0) != nil && calls(deliver) == 1 && callResult(related, 1, 0).(jsonrpc2.ID).value != nil ==> at(locked_cmu_1, inDom(c.requestStreams, callResult(related, 1, 0).(jsonrpc2.ID))) && callArg(deliver, 1, 0) == at(locked_cmu_1, c.streams[c.requestStreams[callResult(related, 1, 0).(jsonrpc2.ID)]])
+//@   ensures @unrelated-traffic-uses-listen-or-standalone-stream !typeIs(msg, *jsonrpc2.Response) && (old(c.jsonResponse) || (calls(related) == 1 && callResult(related, 1, 0) == nil)) && calls(deliver) == 1 ==> callArg(deliver, 1, 0) == at(locked_cmu_1, c.streams[""]) || at(locked_cmu_1, callArg(deliver, 1, 0).isListen)
+//@   ensures @only-responses-strike-off-requests !typeIs(msg, *jsonrpc2.Response) && calls(deliver) == 1 ==> callArg(deliver, 1, 3).value == nil
+//@   ensures @closed-session-delivers-nothing calls(encode) == 1 && callResult(encode, 1, 1) == nil && at(locked_cmu_1, c.isDone) ==> calls(deliver) == 0 && result != nil
+//@   ensures @delivered-at-most-once calls(deliver) <= 1 && calls(store) <= 1
+//@   ensures @same-bytes-stored-and-delivered calls(deliver) == 1 ==> callArg(deliver, 1, 1) == callResult(encode, 1, 0) && (calls(store) == 1 ==> callArg(store, 1, 4) == callResult(encode, 1, 0) && callArg(store, 1, 3) == at(locked_stmu_1, target.id) && callArg(store, 1, 2) == old(c.sessionID))
+//@   ensures @event-id-is-stream-id-and-next-index calls(store) == 1 && calls(deliver) == 1 ==> calls(eventID) == 1 && callArg(eventID, 1, 0) == at(locked_stmu_1, target.id) && callArg(eventID, 1, 1) == at(locked_stmu_1, target.lastIdx) + 1 && callArg(deliver, 1, 2) == callResult(eventID, 1, 0)
+//@   ensures @finished-stream-leaves-the-table calls(deliver) == 1 && callResult(deliver, 1, 0) ==> !at(unlocked_cmu_2, inDom(c.streams, at(locked_cmu_2, target.id)))
+//@   assert at call Append: @stored-before-delivered-inside-the-stream-lock held(stmu) && !held(cmu) && calls(deliver) == 0
+//@   assert at call deliverLocked: @delivered-inside-the-stream-lock held(stmu) && !held(cmu)
+//@   loop 1: invariant @no-listen-stream-chosen-yet local(s) == nil
+
+// An event store (interface; MemoryEventStore is the implementation in this module, user code may supply others):
+// Append writes the store's own data and whatever lies outside the SDK's types - never the transport's state.
+//@ func (EventStore).Append
+//@   abstract
+//@   modifies extern
+//@   modifies fields(MemoryEventStore.nBytes), fields(MemoryEventStore.store), maps("map[string]map[string]*dataList"), maps("map[string]*dataList"), fields(dataList.first), fields(dataList.size), fields(dataList.data), allElems("[]byte")
